@@ -26,7 +26,7 @@ theorem QuietE.trans {a b c : Env} (h1 : QuietE a b) (h2 : QuietE b c) : QuietE 
 theorem quietE_emit (e : Env) (ev : Ev) (h : isHook ev = false) : QuietE e (e.emit ev) := by
   simp [QuietE, Env.emit, hooksOf_append, hooksOf_single ev h]
 
-theorem quietE_discard (e : Env) (r : Reason) (j : Job) : QuietE e (e.discard r j) := quietE_emit e _ rfl
+theorem quietE_discard (e : Env) {h : Option Nat} (r : Reason) (j : Job) : QuietE e (e.discard h r j) := quietE_emit e _ rfl
 theorem quietE_reject (e : Env) (j : Job) : QuietE e (e.reject j) := by
   unfold Env.reject; split
   · exact quietE_emit e _ rfl
@@ -100,8 +100,8 @@ theorem quietE_settle (e : Env) : QuietE e e.settle := by
 theorem quietE_spawn (e : Env) (wid aid : Nat) : QuietE e (e.spawn wid aid) := by
   simp [QuietE, Env.spawn, hooksOf_append, hooksOf]
 
-theorem quietE_getNextNonExpired (mq : List Job) (pend : List Nat) (e : Env) :
-    QuietE e (getNextNonExpired mq pend e).2.2.2 := by
+theorem quietE_getNextNonExpired {h : Option Nat} (mq : List Job) (pend : List Nat) (e : Env) :
+    QuietE e (getNextNonExpired h mq pend e).2.2.2 := by
   induction mq generalizing pend e with
   | nil => rfl
   | cons j rest ih =>
@@ -452,7 +452,7 @@ theorem quiet_workerFinishedJob (w : W) (who key : Nat) : Quiet w (w.workerFinis
         · exact h1.trans (quiet_tryRoute _ _)
   · exact quiet_tryRoute w _
 
-theorem quietE_foldl_discard (r : Reason) (l : List Job) (e : Env) : QuietE e (l.foldl (fun e j => e.discard r j) e) := by
+theorem quietE_foldl_discard (h : Option Nat) (r : Reason) (l : List Job) (e : Env) : QuietE e (l.foldl (fun e j => e.discard h r j) e) := by
   induction l generalizing e with
   | nil => rfl
   | cons j l ih => rw [List.foldl_cons]; exact (quietE_discard e r j).trans (ih _)
@@ -460,7 +460,7 @@ theorem quietE_foldl_discard (r : Reason) (l : List Job) (e : Env) : QuietE e (l
 theorem quiet_removeExpired (w : W) : Quiet w w.removeExpired := by
   unfold W.removeExpired
   split
-  · exact Quiet.of_env (quietE_foldl_discard _ _ _) rfl rfl
+  · exact Quiet.of_env (quietE_foldl_discard _ _ _ _) rfl rfl
   · exact Quiet.refl w
 
 theorem quiet_calcRest (w : W) : Quiet w w.calcRest := by
@@ -520,7 +520,7 @@ theorem quietE_foldl (f : Env → Job → Env) (hf : ∀ e j, QuietE e (f e j)) 
   | nil => rfl
   | cons j l ih => rw [List.foldl_cons]; exact (hf e j).trans (ih _)
 
-theorem quietE_dropQueued (e : Env) (j : Job) : QuietE e (e.dropQueued j) := by
+theorem quietE_dropQueued (h : Option Nat) (e : Env) (j : Job) : QuietE e (Env.dropQueued h e j) := by
   unfold Env.dropQueued; split
   · exact quietE_discard e _ j
   · exact quietE_emit e _ rfl
@@ -540,10 +540,10 @@ theorem postStop_spec (w : W) :
   unfold W.postStop
   simp only
   refine ⟨?_, trivial, trivial⟩
-  have h1 := quietE_foldl Env.dropQueued quietE_dropQueued w.queue w.env
-  have h2 := quietE_foldlW Env.dropWorkerQueue quietE_dropWorkerQueue w.pool (w.queue.foldl Env.dropQueued w.env)
+  have h1 := quietE_foldl (Env.dropQueued w.handler) (quietE_dropQueued w.handler) w.queue w.env
+  have h2 := quietE_foldlW Env.dropWorkerQueue quietE_dropWorkerQueue w.pool (w.queue.foldl (Env.dropQueued w.handler) w.env)
   have h3 := quietE_foldlW (fun e p => e.stop p.actor) (fun e p => quietE_stop e p.actor) w.pool
-    (w.pool.foldl Env.dropWorkerQueue (w.queue.foldl Env.dropQueued w.env))
+    (w.pool.foldl Env.dropWorkerQueue (w.queue.foldl (Env.dropQueued w.handler) w.env))
   exact (h1.trans (h2.trans h3))
 
 theorem quietE_dropMsg (e : Env) (m : FMsg) : QuietE e (e.dropMsg m) := by
@@ -602,6 +602,7 @@ theorem hookOk_handleMsg (w : W) (m : FMsg) (hx : w.exited = false) (h : HookOk 
   | finished who key => exact h.of_quiet (quiet_workerFinishedJob w who key)
   | adjust n => exact h.of_quiet (quiet_resizePool w n)
   | updateSettings d n => exact h.of_quiet (quiet_updateSettings w d n)
+  | setHandler hd => exact h.of_quiet (Quiet.of_env (quietE_emit w.env _ rfl) rfl rfl)
   | drainRequests =>
     obtain ⟨k, hk⟩ := h.order
     refine ⟨⟨k + 1, ?_⟩, fun hx' => by simp [W.handleMsg, W.emit, hx] at hx'⟩
@@ -744,6 +745,7 @@ theorem quiet_applyOp (w : W) (op : Op) : Quiet w (w.applyOp op) := by
       | none => exact quiet_emit w _ rfl
       | some n => exact (quiet_emit w _ rfl).trans (quiet_emit _ _ rfl)
   | drain => exact (quiet_emit w _ rfl).trans (quiet_send _ _)
+  | setHandler hd => exact (quiet_emit w _ rfl).trans (quiet_send _ _)
   | advance => exact Quiet.refl w
   | block => exact ⟨rfl, rfl, fun h => h⟩
   | release n =>
@@ -805,7 +807,8 @@ theorem hookOk_init (c : CaseCfg) : HookOk (init c) := by
           let lc : LeakyBucket.Cfg := ⟨r.1, r.2.1, r.2.2.1, 10 ^ 40⟩
           (lc, LeakyBucket.new lc (some r.2.2.2) 0),
        queue := [], disc := c.disc, drain := .notDraining,
-       env := { actors := [], log := [], now := 0, hasHandler := c.cfg.hasHandler, sup := [] },
+       handler := if c.cfg.hasHandler then some 0 else none,
+       env := { actors := [], log := [], now := 0, sup := [] },
        nextAid := 0, stopSignal := false, stopped := false, inbox := [], blocked := false, armed := false,
        nextCalc := CALCULATE_FREQUENCY, answers := [], lastWq := none } : W) c.n
   refine ⟨⟨0, ?_⟩, ?_⟩
